@@ -23,6 +23,7 @@ def opOfName : String → Option ROp
   | "argsIter" => some .argsIter | "metaIter" => some .metaIter | "executionAllowed" => some .executionAllowed
   | "seal" => some .seal | "executionAllowedHook" => some .executionAllowedHook
   | "executionAllowedMissing" => some .executionAllowedMissing
+  | "executionAllowedDenied" => some .executionAllowedDenied
   | "executionAllowedHookDenied" => some .executionAllowedHookDenied
   | "executionAllowedHookClone" => some .executionAllowedHookClone | _ => none
 
